@@ -220,6 +220,33 @@ def sized_trees(rng) -> list:
     return out
 
 
+def iterating_entry_points(ctx: Ctx) -> None:
+    """HTML() handed to the entry points that ITERATE their argument (extend, +, +=, reflected +, star
+    arguments): however the pieces are cut, their concatenated rendering is the trusted string, byte
+    for byte (the unchanged library makes one HTML child per character)."""
+    rng = ctx.rng
+    marks = ["<b>&amp;</b>", "a<b", "&", "<!-- x -->", "x>y<z", "<i>\u00e9</i>&nbsp;"] + \
+            [m for m in (trees.rand_text(rng, 8) for _ in range(ctx.budget(40, 400))) if m]
+    for m in marks:
+        h = HTML(m)
+        routes = {
+            "TagList().extend(HTML)": lambda: (lambda t: (t.extend(h), t)[1])(TagList()),
+            "TagList('x') + HTML": lambda: TagList() + h,
+            "TagList += HTML": lambda: (lambda t: t.__iadd__(h))(TagList()),
+            "Tag.extend(HTML)": lambda: (lambda t: (t.extend(h), t.children)[1])(Tag("div")),
+            "Tag(*HTML)": lambda: Tag("div", *h).children,
+            "TagList(*HTML)": lambda: TagList(*h),
+            "TagList(list(HTML))": lambda: TagList(list(h)),
+        }
+        for name, f in routes.items():
+            ctx.count(("iterating", name, m), any(c in m for c in "&<>"), "HTML() through an iterating entry point")
+            r = safe_call(lambda: f().get_html_string(add_ws=False) if isinstance(f(), TagList) else None)
+            if r[0] == "ok" and r[1] is not None and r[1].replace("\n", "") != m.replace("\n", ""):
+                ctx.violation("HTML() handed to an entry point that iterates its argument (extend / + / += / star arguments) is "
+                              "not emitted byte for byte", {"route": name, "markup": m},
+                              {"impl_output": r[1], "expected": m})
+
+
 def run(ctx: Ctx) -> None:
     rng = ctx.rng
     ctx.rule = ("(1) random + expressions (depth <= 5) over str / HTML() / other objects with metacharacter-heavy "
@@ -239,6 +266,7 @@ def run(ctx: Ctx) -> None:
                        "path) makes the output a function of the tree shape into which the strings are substituted; "
                        "JSX components are opaque siblings (their own serialisation is C20's subject)"]
     ctx.proof()
+    iterating_entry_points(ctx)
 
     # ---- concatenation algebra -------------------------------------------------------
     exprs = []
